@@ -192,7 +192,17 @@ Definition remove_all_equivalences (g : graph) (a : nat) : graph :=
     set_wadj (fold_left (fun h e => unset_equivalent_to h e a) (eqv g a) g) a []
   else g.
 
-Inductive op := AddEq (a b : nat) | Expire (a : nat) | RemEq (a b : nat) | RemAll (a : nat).
+(** Edits.  The last three do not touch the weak lists:
+    - [AddEq4 a b]: Variable::addEquivalence(v1, v2, mappingId, connectionId) = addEquivalence(v1, v2), then the
+      two identifiers are recorded in mMappingIdMap / mConnectionIdMap of both variables;
+    - [IdOp a b]: Variable::setEquivalenceMappingId / setEquivalenceConnectionId / removeEquivalenceMappingId /
+      removeEquivalenceConnectionId (v1, v2, ...): they only write the identifier maps (after asking
+      hasEquivalentVariable(v2, true));  no query function reads those maps;
+    - [Reparse]: the model is printed (Printer) and the text parsed (Parser); the history goes on with the
+      objects of the parsed model.  That this keeps the equivalences is C02's statement, assumed here and
+      observed by the correspondence run. *)
+Inductive op := AddEq (a b : nat) | Expire (a : nat) | RemEq (a b : nat) | RemAll (a : nat)
+              | AddEq4 (a b : nat) | IdOp (a b : nat) | Reparse.
 
 Definition step (g : graph) (o : op) : graph :=
   match o with
@@ -200,6 +210,9 @@ Definition step (g : graph) (o : op) : graph :=
   | Expire a => expire g a
   | RemEq a b => remove_equivalence g a b
   | RemAll a => remove_all_equivalences g a
+  | AddEq4 a b => add_equivalence g a b
+  | IdOp _ _ => g
+  | Reparse => g
   end.
 
 Definition empty_graph : graph := {| wadj := fun _ => []; alive := fun _ => true |}.
